@@ -1149,8 +1149,16 @@ class NodeIn:
         elif container.isMap():
             return ValueBoolean.fromval(container.hasItem(value))
         elif container.isObject():
+            if not value.isString():
+                return FALSE
             return ValueBoolean.fromval(container.hasItem(value.value))
         elif container.isString():
+            if not value.isString():
+                raise CklRuntimeError(
+                    ValueString("ERROR"),
+                    f"Cannot test whether {value.type()} is in a string",
+                    self.pos,
+                )
             return ValueBoolean.fromval(
                 container.value.find(value.value) != -1
             )
